@@ -918,11 +918,13 @@ package rtcp
 //@   ensures[C13] framed: err == nil ==> 20 + 2*len(t.PacketChunks) <= len(rawPacket)
 //@   ensures[C13] deltatypes: forall k :: err == nil && 0 <= k && k < len(t.RecvDeltas) ==> t.RecvDeltas[k] != nil && (t.RecvDeltas[k].Type == 1 || t.RecvDeltas[k].Type == 2)
 //@   ensures[C13] count: err == nil ==> len(t.RecvDeltas) <= int(t.PacketStatusCount)
+//@   ensures[C09] chunkkinds: forall k :: err == nil && 0 <= k && k < len(t.PacketChunks) ==> isType(t.PacketChunks[k], (*RunLengthChunk)(nil)) || (isType(t.PacketChunks[k], (*StatusVectorChunk)(nil)) && len(dyn(t.PacketChunks[k], (*StatusVectorChunk)(nil)).SymbolList) <= 14)
 //@   loop 1
 //@     invariant int(packetStatusPos) == 20 + 2*len(t.PacketChunks) && packetStatusPos <= totalLength && totalLength >= 20 && int(totalLength) <= len(rawPacket) && processedPacketNum <= t.PacketStatusCount
 //@     invariant unchanged(t.Header) && unchanged(t.SenderSSRC) && unchanged(t.MediaSSRC) && unchanged(t.BaseSequenceNumber) && unchanged(t.PacketStatusCount) && unchanged(t.ReferenceTime) && unchanged(t.FbPktCount)
 //@     invariant[C01,C13] forall k :: 0 <= k && k < len(t.RecvDeltas) ==> t.RecvDeltas[k] != nil && (t.RecvDeltas[k].Type == 1 || t.RecvDeltas[k].Type == 2)
 //@     invariant[C01,C13] len(t.RecvDeltas) <= int(processedPacketNum)
+//@     invariant[C09] forall k :: 0 <= k && k < len(t.PacketChunks) ==> isType(t.PacketChunks[k], (*RunLengthChunk)(nil)) || (isType(t.PacketChunks[k], (*StatusVectorChunk)(nil)) && len(dyn(t.PacketChunks[k], (*StatusVectorChunk)(nil)).SymbolList) <= 14)
 //@     invariant[C01] allocated() <= 24*len(t.RecvDeltas) + 128*len(t.PacketChunks)
 //@     decreases int(totalLength) - int(packetStatusPos)
 //@   loop 2
@@ -1925,6 +1927,11 @@ package rtcp
 //@   ensures[C09] ssrcs: forall k :: err == nil && err2 == nil && 0 <= k && k < len(p.SSRCs) ==> q.SSRCs[k] == p.SSRCs[k]
 //@   ensures[C09] notabove: err == nil && err2 == nil ==> q.Bitrate <= p.Bitrate
 //@   ensures[C09] bitrate: err == nil && err2 == nil ==> q.Bitrate == p.Bitrate
+
+//@ func lemmaReencodeTWCCPre(raw []byte) (p TransportLayerCC, err error, err2 error)
+//@   lemma
+//@   ensures[C09] header: err == nil ==> p.Header.Count == 15 && p.Header.Type == TypeTransportSpecificFeedback
+//@   ensures[C09] encodes: err == nil && err2 == nil ==> p.Header.Count <= 31
 
 //@ func lemmaRoundTripRaw(p RawPacket) (q RawPacket, err error, err2 error)
 //@   lemma
